@@ -633,6 +633,34 @@ def r10_cursor_to_world(rule, root=None):
     if n == 0:
         rule.lost("cursor conversions (`self.image_size.transform_point(..)`) in the canvases")
 
+
+def r11_drag_ends_with_the_button(rule, root=None):
+    """in immediate mode a drag ends only because the cursor state says so (no button held, no cursor): a handle
+    stores its grab in model space, so nothing else - a new image size in particular - invalidates it, and ending it
+    lets the idempotent begin_drag of the same event grab a different model point"""
+    n = 0
+    for f in A.fns(GUI, root):
+        ow = (f.get("_owner") or {}).get("self_ty") or ""
+        if not ow.startswith("Canvas") or f["name"] != "interact" or f.get("body") is None:
+            continue
+        ps = [A.binding_name(p_["pat"]) for p_ in f["sig"]["inputs"] if "pat" in p_]
+        cur = [p_ for p_ in ps if "cursor" in (p_ or "")] or ps[1:2]
+        for c in A.find(f["body"], "MethodCall"):
+            if c["method"] != "end_drag":
+                continue
+            n += 1
+            ctx_ = [x.replace(" ", "") for x in (A.enclosing_conds(f["body"], c) or [])]
+            pats = ["%s<-%s" % (str(A.ftxt(p_)), str(A.ftxt(s_))) for p_, s_ in (A.enclosing_patterns(f["body"], c) or [])]
+            allctx = ctx_ + pats
+            about_cursor = any(any(k_ in x for k_ in ([".drag"] + list(cur))) for x in allctx)
+            other = [x for x in ctx_ if "image_size" in x or "size" in x.lower()]
+            if about_cursor and not other:
+                rule.ok("%s::interact ends the drag where the cursor state has no button held" % ow, file=GUI, line=c["ln"])
+            else:
+                rule.bad("%s|interact|end_drag" % ow, "%s::interact ends the drag under `%s`: in immediate mode a drag ends only when the cursor state carries no drag (the handle holds its grab in model space; ending it on a resize makes the same event's begin_drag grab another point)" % (ow, (other or ctx_ or ["no condition"])[0][:70]), A.where(GUI, c))
+    if n == 0:
+        rule.lost("end_drag() calls in Canvas2 / Canvas3 ::interact")
+
 def run(ctx):
     r = ctx.rule("R1", "world_to_model = translate x rotate x scale of the view's own components", 9)
     ctx.guarded(r, r1_matrix)
@@ -654,3 +682,5 @@ def run(ctx):
     ctx.guarded(r, r_canvas_state)
     r = ctx.rule("R10", "a cursor pixel reaches world space only through self.image_size.transform_point of the cursor's own coordinates", 7)
     ctx.guarded(r, r10_cursor_to_world)
+    r = ctx.rule("R11", "in immediate mode a drag ends only with the cursor state (never because the image size changed)", 4)
+    ctx.guarded(r, r11_drag_ends_with_the_button)
